@@ -145,6 +145,12 @@ static bool chunk_info_equals(void *user, const void *k, const void *c)
 		return false;
 	}
 
+	/* a = where the compared block lives: 0 in flight, 1 current, 2 re-read */
+	VERIF_EVENT(20, (it == proc->frag_block) ? 1 :
+		    ((it == proc->cached_frag_blk) ? 2 : 0),
+		    memcmp(it->data + cmp->offset, proc->current_frag->data,
+			   cmp->size) != 0, cmp->index);
+
 	return memcmp(it->data + cmp->offset,
 		      proc->current_frag->data, cmp->size) == 0;
 }
